@@ -34,7 +34,7 @@ def tree_paths(root):
 class DataGen:
     """Generates one op at a time from the live reference tree `root` (plain h5py)."""
 
-    W = {"set": 20, "grp": 8, "rgrp": 6, "del": 14, "sattr": 12, "dattr": 6,
+    W = {"set": 20, "cds": 4, "grp": 8, "rgrp": 6, "del": 14, "sattr": 12, "dattr": 6,
          "copy": 8, "move": 6, "commit": 14, "reopen": 2}
 
     def __init__(self, rng, keys=None, weights=None, allow_self_copy=True, boundaries=True):
@@ -77,6 +77,22 @@ class DataGen:
             return ["reopen", rng.choice(["r+", "a"])]
         if k == "set":
             op = ["set", self.any_path(nodes, groups, 0.35), token(rng, self.i)]
+        elif k == "cds":
+            r = rng.random()
+            tok = ["arr", [self.i, self.i + 1, self.i + 2, self.i + 3]] if r < 0.75 else token(rng, self.i)
+            kw = rng.choice([{"compression": "gzip"}, {"compression": "gzip", "compression_opts": 1}, {"compression": "lzf"}, {},
+                             {"dtype": "f8"}, {"compression": "gzip", "dtype": "i4"}])
+            if tok[0] != "arr":
+                # h5py creates missing parent groups before it finds out that a scalar cannot take filters / a value cannot be
+                # converted, and leaves them behind: such failing calls have no defined tree semantics and are not generated
+                kw = {}
+                if tok[0] == "unstorable":
+                    tok = ["int", self.i]
+            if r > 0.92:
+                tok, kw = None, {"shape": [rng.randint(1, 3)], "dtype": rng.choice(["i8", "f4"]), **({"compression": "gzip"} if rng.random() < 0.5 else {})}
+            # mostly top-level names (a merge walks the top level itself, everything below through the generic copy)
+            p = "/" + rng.choice(self.keys) + str(self.i % 7) if rng.random() < 0.5 else self.any_path(nodes, groups, 0.2)
+            op = ["cds", p, tok, kw]
         elif k == "grp":
             op = ["grp", self.any_path(nodes, groups, 0.25)]
         elif k == "rgrp":
@@ -108,10 +124,20 @@ class DataGen:
                 if k == "move" or not self.allow_self_copy:
                     return self.next(root)  # excluded by the property
             op = [k, src, dst]
-        # sometimes issue the operation through a sub-group handle with a relative path
-        if rng.random() < 0.12 and groups[1:] and op[0] not in ("copy", "move"):
-            g = rng.choice(groups[1:])
-            p = abspath("/", op[1])
-            if p.startswith(g + "/"):
-                op = ["at", g, [op[0], p[len(g) + 1:]] + op[2:]]
+        # sometimes issue the operation through a sub-group handle: with a relative path where the target lies below the
+        # group, and with ABSOLUTE paths from any group (h5py resolves those from the root, whatever the handle)
+        r = rng.random()
+        if r < 0.2 and groups[1:]:
+            npath = 2 if op[0] in ("copy", "move") else 1
+            # prefer a group that is an ancestor of one of the paths (so that relative paths from the handle occur)
+            anc = [g for g in groups[1:] if any(abspath("/", op[j]).startswith(g + "/") for j in range(1, 1 + npath))]
+            g = rng.choice(anc) if anc and rng.random() < 0.7 else rng.choice(groups[1:])
+            new = list(op)
+            for j in range(1, 1 + npath):
+                p = abspath("/", op[j])
+                if p.startswith(g + "/") and rng.random() < 0.75:
+                    new[j] = p[len(g) + 1:]
+                else:
+                    new[j] = p
+            op = ["at", g, new]
         return op
